@@ -4,10 +4,12 @@ import (
 	"fmt"
 	"math/big"
 
+	sdkmath "cosmossdk.io/math"
 	codectypes "github.com/cosmos/cosmos-sdk/codec/types"
 	sdk "github.com/cosmos/cosmos-sdk/types"
 	txtypes "github.com/cosmos/cosmos-sdk/types/tx"
 	authtypes "github.com/cosmos/cosmos-sdk/x/auth/types"
+	sdkvesting "github.com/cosmos/cosmos-sdk/x/auth/vesting/types"
 	banktypes "github.com/cosmos/cosmos-sdk/x/bank/types"
 	"github.com/ethereum/go-ethereum/common"
 	ethtypes "github.com/ethereum/go-ethereum/core/types"
@@ -15,6 +17,7 @@ import (
 	e "haqqsim/engine"
 
 	haqqtypes "github.com/haqq-network/haqq/types"
+	vestingtypes "github.com/haqq-network/haqq/x/vesting/types"
 	evmtypes "github.com/haqq-network/haqq/x/evm/types"
 )
 
@@ -47,6 +50,8 @@ func (c03) Configure(r *e.RNG, tier string) e.Config {
 	c.Flags["w_eth2"] += 1
 	c.Flags["w_blk"] = r.Range(3, 6)
 	c.Flags["w_crash"] = r.Range(0, 2)
+	c.Flags["w_replay"] = r.Range(1, 4)
+	c.Flags["w_vestconv"] = r.Range(0, 2)
 	c.Flags["p_fault"] = r.Range(30, 60)
 	return c
 }
@@ -104,11 +109,11 @@ func (c03) Setup(w *e.World) error {
 }
 
 var ethCorrupt = []string{"nonce", "price", "tip", "gas", "to", "value", "data", "access", "chainid", "v", "r", "s", "type"}
-var cosmosCorrupt = []string{"amount", "recipient", "memo", "timeout", "fee", "gas", "payer", "granter", "sequence", "pubkey", "signmode", "sig", "extchain", "extpayer", "extsig", "extdrop"}
+var cosmosCorrupt = []string{"amount", "recipient", "memo", "timeout", "fee", "gas", "payer", "granter", "sequence", "pubkey", "signmode", "sig", "extchain", "extpayer", "extsig", "extdrop", "extadd"}
 
 func (c03) Gen(w *e.World, r *e.RNG) e.Step {
 	f := w.Cfg.Flags
-	weights := []int{int(f["w_blk"]), int(f["w_crash"])}
+	weights := []int{int(f["w_blk"]), int(f["w_crash"]), int(f["w_replay"]), int(f["w_vestconv"])}
 	for _, k := range c03Kinds {
 		weights = append(weights, int(f["w_"+k]))
 	}
@@ -121,8 +126,14 @@ func (c03) Gen(w *e.World, r *e.RNG) e.Step {
 			return e.BlkStep(1000, nil)
 		}
 		return e.Step{K: "crash", A: 0}
+	case 2:
+		// the network re-delivers some transaction it has seen accepted long ago
+		return e.Step{K: "replay", N: []int64{r.Range(0, 1<<30)}}
+	case 3:
+		// account-type change in between: a funder converts an account into a vesting account
+		return e.Step{K: "vestconv", A: r.Intn(nAcc(w)), B: r.Intn(nAcc(w)), S: []string{r.Amount(big.NewInt(1_000_000)).String()}}
 	}
-	kind := c03Kinds[k-2]
+	kind := c03Kinds[k-4]
 	net := ""
 	if int64(r.Intn(100)) < f["p_fault"] {
 		switch r.Weighted([]int{3, 3, 2, 1, 6, 3, 2, 2}) {
@@ -387,6 +398,16 @@ func corruptCosmos(w *e.World, bz []byte, field string, other *e.Account) ([]byt
 			return nil, false
 		}
 		raw.Signatures[0][3] ^= 0x40
+	case "extadd":
+		// attach a dynamic-fee extension option (it sets the priority fee actually charged)
+		if len(body.ExtensionOptions) != 0 {
+			return nil, false
+		}
+		any, err := codectypes.NewAnyWithValue(&haqqtypes.ExtensionOptionDynamicFeeTx{MaxPriorityPrice: sdkmath.NewInt(1)})
+		if err != nil {
+			return nil, false
+		}
+		body.ExtensionOptions = []*codectypes.Any{any}
 	case "extchain", "extpayer", "extsig", "extdrop":
 		if len(body.ExtensionOptions) == 0 {
 			return nil, false
@@ -520,6 +541,50 @@ func (p c03) Exec(w *e.World, st *e.Step) *e.Violation {
 	case "crash":
 		v, _ := ExecCommon(w, st)
 		return v
+	case "replay":
+		var acc []*c03Elem
+		for _, el := range m.elems {
+			if el.accepted {
+				acc = append(acc, el)
+			}
+		}
+		if len(acc) == 0 {
+			return nil
+		}
+		el := acc[int(st.NArg(0))%len(acc)]
+		w.Stats.Fault("net_replay_of_old_tx")
+		return p.deliver(w, m, c03Queued{elem: el, bytes: el.bytes, class: "dup"})
+	case "vestconv":
+		if st.A >= len(w.Accts) || st.B >= len(w.Accts) || st.A == st.B {
+			return nil
+		}
+		a, b := w.Acct(st.A), w.Acct(st.B)
+		amt := e.BigS(st.SArg(0))
+		if amt.Sign() <= 0 {
+			return nil
+		}
+		lock := sdkvesting.Periods{{Length: 1000, Amount: e.Native(amt)}}
+		pre := c03Fingerprint(w)
+		bz, err := w.BuildCosmosTx(a, e.TxOpts{}, vestingtypes.NewMsgConvertIntoVestingAccount(a.Acc, b.Acc, w.Now, lock, nil, true, false, nil))
+		if err != nil {
+			return nil
+		}
+		el := &c03Elem{id: len(m.elems), acct: st.A, kind: "cosmos", seq: pre.seq[st.A], bytes: bz, class: "honest"}
+		m.elems = append(m.elems, el)
+		res := w.DeliverTx(bz)
+		post := c03Fingerprint(w)
+		if post.seq[st.A] != pre.seq[st.A] {
+			el.accepted = true
+			m.accepted[st.A]++
+		}
+		w.Stats.Op("vestconv", res.Code == 0)
+		// nobody else's sequence may move (in particular not the converted account's)
+		for i := range pre.seq {
+			if i != st.A && pre.seq[i] != post.seq[i] {
+				return e.Violatef("exactly-once", "sequence-changed-by-account-conversion", "converting acct %d into a vesting account changed its sequence %d -> %d", i, pre.seq[i], post.seq[i])
+			}
+		}
+		return nil
 	case "tx":
 		if st.A >= len(w.Accts) {
 			return nil
